@@ -434,9 +434,16 @@ func txsJSON(txs []txn) []map[string]interface{} {
 // ---------------------------------------------------------------------------------------------
 // part A: OverlayDB level
 
-func applyOverlay(ov *overlaydb.OverlayDB, txs []txn) {
+// observeEvery > 0: the digest is also asked for after every observeEvery-th transaction (an
+// observation: it must not influence any later answer). Returns the number of such intermediate calls.
+func applyOverlay(ov *overlaydb.OverlayDB, txs []txn, observeEvery int) int {
 	cache := storage.NewCacheDB(ov)
-	for _, t := range txs {
+	observed := 0
+	for ti, t := range txs {
+		if observeEvery > 0 && ti > 0 && ti%observeEvery == 0 {
+			ov.ChangeHash()
+			observed++
+		}
 		regs := map[byte][]byte{} // slices exactly as returned by Get (never copied)
 		if t.Direct && !t.Fail {
 			for _, o := range t.Ops {
@@ -475,6 +482,7 @@ func applyOverlay(ov *overlaydb.OverlayDB, txs []txn) {
 			cache.Commit()
 		}
 	}
+	return observed
 }
 
 func partA(r *kit.Run) {
@@ -528,8 +536,23 @@ func partA(r *kit.Run) {
 				r.Count("A_"+k, v)
 			}
 			seqs[j] = txs
-			applyOverlay(ovs[j], txs)
+			// sequence 0 is hashed once at the end; the others are also asked for intermediate digests
+			nObs := applyOverlay(ovs[j], txs, []int{0, 1, 2}[j])
+			r.Count("A_intermediate_digest_calls", nObs)
 			hashes[j] = ovs[j].ChangeHash()
+			if nObs > 0 {
+				r.Count("A_sequences_hashed_after_intermediate_digest_calls", 1)
+			}
+			// asking again without any write in between must give the same answer
+			for rep := 0; rep < 2; rep++ {
+				if again := ovs[j].ChangeHash(); again != hashes[j] {
+					r.Violation("changehash-not-repeatable", fmt.Sprintf("ChangeHash() returned %x, then %x on the same unchanged block layer (call %d)", hashes[j], again, rep+2),
+						map[string]interface{}{"net_write_set": kvJSON(want), "sequence": txsJSON(txs)})
+					break
+				} else {
+					r.Count("A_repeated_digest_calls_equal", 1)
+				}
+			}
 			r.Eval(1)
 		}
 		r.Distinct("A", len(nt.keys), len(seqs[0]), len(seqs[1]), len(seqs[2]), hashes[0])
@@ -559,7 +582,7 @@ func partA(r *kit.Run) {
 			k0 := string(nt.keys[rng.Intn(len(nt.keys))])
 			nt2.final[k0] = append(genVal(rng), 0x55, 0xaa, 0x55, 0xaa, 0x55, 0xaa, 0x55)
 			txs, _ := genTxs(rng, nt2, 2, nil, true, persistedKeys(persisted))
-			applyOverlay(ovs[2], txs)
+			applyOverlay(ovs[2], txs, 0)
 			if ovs[2].ChangeHash() != hashes[0] {
 				r.Count("A_digest_changed_with_different_final_value", 1)
 			}
@@ -576,8 +599,9 @@ func partA(r *kit.Run) {
 	}
 	r.Require("A_equal_digests", n)
 	r.Require("A_equal_write_sets", n)
+	r.Require("A_repeated_digest_calls_equal", 3*n)
 	r.Require("A_digest_changed_with_different_final_value", n/10-1)
-	for _, c := range []string{"A_intermediate_delete", "A_intermediate_same_value", "A_intermediate_put_empty", "A_intermediate_other_value", "A_final_delete", "A_final_delete_as_empty_put", "A_delete_then_put", "A_put_then_delete", "A_aborted_tx", "A_forwarded_after_source_overwritten_by_value_not_longer", "A_reads_of_persisted_unwritten_key_in_committed_tx", "A_nets_rewriting_a_key_with_its_persisted_value"} {
+	for _, c := range []string{"A_intermediate_delete", "A_intermediate_same_value", "A_intermediate_put_empty", "A_intermediate_other_value", "A_final_delete", "A_final_delete_as_empty_put", "A_delete_then_put", "A_put_then_delete", "A_aborted_tx", "A_forwarded_after_source_overwritten_by_value_not_longer", "A_reads_of_persisted_unwritten_key_in_committed_tx", "A_nets_rewriting_a_key_with_its_persisted_value", "A_sequences_hashed_after_intermediate_digest_calls"} {
 		r.Require(c, n/10)
 	}
 }
@@ -827,7 +851,7 @@ func partB(r *kit.Run) {
 func TestC11(t *testing.T) {
 	r := kit.Start(t, "C11", "exploration")
 	defer r.Finish()
-	r.Rule("a net write set (1..9 keys over a small alphabet, ~30% finally deleted; in half of the sets one key is re-written with exactly the value it already has in the persisted state below the block) is expanded into operation sequences: per key 0..3 intermediate writes (other value, delete, empty put, the final value early) then the final write (deletion as Delete or as empty Put), chains merged in random order, cut into transactions (through a CacheDB + Commit, or directly on the block layer), aborted transactions touching arbitrary keys in between; some puts are rewritten to forward the uncopied slice a Get of another key returned earlier in the transaction; plain reads (of keys persisted below the block and not written by it, of written keys, of random keys) are sprinkled into all but the minimal sequences. Part A: 3 sequences per net set on real OverlayDBs over a store with random contents -> ChangeHash and GetWriteSet must coincide. Part B: two real ledgers execute one block per net set whose scripted-contract transactions perform two different sequences -> ExecuteResult.Hash, MerkleRoot, write set and the stored state root must coincide; every block is also executed three times on its ledger. distinct = (part, #keys, #txs per sequence, digest)")
+	r.Rule("a net write set (1..9 keys over a small alphabet, ~30% finally deleted; in half of the sets one key is re-written with exactly the value it already has in the persisted state below the block) is expanded into operation sequences: per key 0..3 intermediate writes (other value, delete, empty put, the final value early) then the final write (deletion as Delete or as empty Put), chains merged in random order, cut into transactions (through a CacheDB + Commit, or directly on the block layer), aborted transactions touching arbitrary keys in between; some puts are rewritten to forward the uncopied slice a Get of another key returned earlier in the transaction; plain reads (of keys persisted below the block and not written by it, of written keys, of random keys) are sprinkled into all but the minimal sequences. Part A: 3 sequences per net set on real OverlayDBs over a store with random contents -> ChangeHash and GetWriteSet must coincide; the digest of sequences 2 and 3 is also asked for between transactions and every final digest is asked for three times (an observation must not change later answers). Part B: two real ledgers execute one block per net set whose scripted-contract transactions perform two different sequences -> ExecuteResult.Hash, MerkleRoot, write set and the stored state root must coincide; every block is also executed three times on its ledger. distinct = (part, #keys, #txs per sequence, digest)")
 	r.Assume("sequences compared always touch the same key set (a key written then deleted is still a written key); a deletion and an empty put are the same final value")
 	r.Assume("the scripted contract registered into native.Contracts for this test only calls CacheDB.Put/Delete, like real native contracts do")
 	partA(r)
